@@ -305,9 +305,10 @@ def check_iter_form(run, F, name, rules):
     ev = S.Evaluator(fn)
     w0 = S.World()
     if name.startswith('rolling2'):
-        # documented precondition of the two-series forms: equal lengths
-        w0.facts += [L('len(self)'), L('len(other)'), sub(L('len(self)'), L('len(other)')),
-                     sub(L('len(other)'), L('len(self)'))]
+        # precondition of the two-series forms: the second series is at least as long as the
+        # first (the kernel forms assert exactly this; a longer second series is legal and
+        # must not change what is read from the first)
+        w0.facts += [L('len(self)'), L('len(other)'), sub(L('len(other)'), L('len(self)'))]
     ev.run_fn(w0)
     seqrules.check_len_sites(run, fn, ev)
     seqrules.check_underflow(run, fn, ev, exempt_window0=True)
